@@ -209,17 +209,13 @@ func (t *numTr) helperPort(x *ast.CallExpr, name string, args []val, st *state, 
 		return mutate(args[0], fmt.Sprintf("(Go.toTwosComplement %s %s)", t.bigExpr(x, args[1], st), intArg(args[2]))), true
 	case "truncate":
 		return mutate(args[0], fmt.Sprintf("(Go.truncateWords %s %s)", t.bigExpr(x, args[0], st), intArg(args[1]))), true
-	case "fromTwosComplement":
-		c := t.newCell()
-		e := fmt.Sprintf("(Go.fromTwosComplement %s)", t.bigExpr(x, args[0], st))
-		st = st.clone()
-		st.store[c] = e
-		return k(vBig{c}, st), true
 	}
 	return nil, false
 }
 
-var helperPorts = map[string]bool{"interpreter.toTwosComplement": true, "interpreter.truncate": true, "interpreter.fromTwosComplement": true}
+// byte-level helpers that are mapped to hand-written ports (Verif.Model.Num.Basic) instead of being translated;
+// every other helper (e.g. fromTwosComplement) is inlined from its source
+var helperPorts = map[string]bool{"interpreter.toTwosComplement": true, "interpreter.truncate": true}
 
 func (t *numTr) inline(x *ast.CallExpr, fd *ast.FuncDecl, pkg string, recv val, recvName string, argExprs []ast.Expr, st *state, fr *frame, k kont) term {
 	if t.depth > 60 {
@@ -431,6 +427,8 @@ func (t *numTr) bigMethod(x *ast.CallExpr, z vBig, name string, args []val, st *
 		return set("(-" + arg(0) + " - 1)")
 	case "Bits":
 		return k(vBits{self}, st)
+	case "Bit":
+		return k(vInt{e: "(Go.bit " + self + " " + native(0, i64) + ")", k: u64}, st)
 	case "Cmp":
 		o := arg(0)
 		return k(vInt{e: "(Go.cmp " + self + " " + o + ")", k: i64, cmp: &[2]string{self, o}}, st)
